@@ -755,7 +755,8 @@ impl Check {
                 continue;
             }
             let _ = std::fs::create_dir_all(&rdir);
-            let path = format!("{}/{}-{:016x}.json", rdir, self.tier.as_str(), fnv(sym));
+            let tag = std::env::var("VERIF_REPLAY_TAG").map(|t| format!("{t}-")).unwrap_or_default();
+            let path = format!("{}/{}-{}{:016x}.json", rdir, self.tier.as_str(), tag, fnv(sym));
             let body = json!({
                 "property": self.property, "tier": self.tier.as_str(), "space": first.space, "arg": first.arg,
                 "index": first.index, "case": first.desc, "symptom": sym, "detail": first.detail,
@@ -802,7 +803,7 @@ impl Check {
             "machinery_errors": self.machinery_errors,
         });
         let _ = std::fs::create_dir_all(format!("{}/evidence", VERIF_ROOT));
-        let epath = format!("{}/evidence/{}.json", VERIF_ROOT, self.property);
+        let epath = std::env::var("VERIF_EVIDENCE_PATH").unwrap_or_else(|_| format!("{}/evidence/{}.json", VERIF_ROOT, self.property));
         if let Err(e) = std::fs::write(&epath, serde_json::to_string_pretty(&ev).unwrap()) {
             eprintln!("machinery: cannot write evidence: {e}");
             std::process::exit(2);
